@@ -308,3 +308,45 @@ def shot_chunks(ctx):
         return True, (f"shots={N}",)
 
     ctx.sweep("shot_chunks", cases, body)
+
+
+# ------------------------------------------------------------------------------------------------------------------
+# Both backends in one process, on the same register widths, in both orders: bitstring conventions must not leak from
+# one backend object/class to another (cirq is lsq_first, sympy msq_first). The sympy backend reaches the shared
+# statevector-to-frequencies helper only for an empty circuit with a user-supplied initial statevector.
+
+@part("cross_backend", quick=1, thorough=1)
+def cross_backend(ctx):
+    from tangelo.linq import get_backend, Circuit
+
+    def freqs_of(backend, n, vec):
+        be = get_backend(backend)
+        v = vec if be.backend_info()["statevector_order"] == "lsq_first" else R.reverse_order(vec)
+        iv = np.asarray(v).reshape(-1, 1) if backend == "sympy" else np.asarray(v)
+        f, _ = be.simulate(Circuit(n_qubits=n), initial_statevector=iv)
+        return {k: complex(x).real for k, x in f.items()}
+
+    cases = []
+    for n in (1, 2, 3, 4):
+        for first in ("cirq", "sympy"):
+            # non-palindromic support: amplitudes on |10..0>, |110..0> style indices with distinct weights
+            amps = [0.0] * 2 ** n
+            amps[1] = 0.6
+            amps[2 ** n - 2 if n > 1 else 0] = 0.8 if n > 1 else 0.8
+            if n == 1:
+                amps = [0.6, 0.8]
+            cases.append({"n": n, "first": first, "amps": amps})
+
+    def body(case):
+        n = case["n"]
+        vec = np.array(case["amps"], dtype=complex)
+        vec = vec / np.linalg.norm(vec)
+        p = R.probs(vec)
+        order = [case["first"], "sympy" if case["first"] == "cirq" else "cirq", case["first"]]
+        for b in order:
+            check_freqs_exact(freqs_of(b, n, vec), p, n, f"cross-backend:{b}-after-{order[0] if b != order[0] else 'start'}")
+        return True, (f"first={case['first']}", f"n={n}")
+
+    # every width is visited with both orders, but a process-wide leak depends on which backend asks first for a width:
+    # shard by width so that each (width, first) pair meets a fresh process in at least one shard layout
+    ctx.sweep("cross_backend", cases, body)
